@@ -183,7 +183,12 @@ def judge (force : Nat) (st : St) (method path : Bytes) (hs : List (Bytes × Byt
         [] "unbounded-reentry" else st1
   if o.framing == "noresponse" then
     -- nothing came back within the client's deadline: the key is wedged (C13), the request unanswered (C05)
-    add st1 ["bad:C13:request-got-no-response-the-key-is-wedged", "bad:C05:request-got-no-response"] [] "noresponse" else
+    -- finding C11-a seen from here: the key string is a bare concatenation, so a request WITH Authorization finds the
+    -- entry stored for the path `<path>Authorization<credentials>`; when that entry is revalidated with 304 the handler
+    -- re-enters itself while still holding the key and waits for itself
+    let authV := (valuesCI hs b!"authorization").headD []
+    let collides := reqAuth && st.all.any (fun x => x.path == path ++ b!"Authorization" ++ authV)
+    add st1 ["bad:C13:request-got-no-response-the-key-is-wedged", "bad:C05:request-got-no-response"] (if collides then ["C11-a"] else []) "noresponse" else
   match cur? with
   | none => add st1 [] [] "no-origin"
   | some c =>
@@ -316,6 +321,7 @@ def reconcile (model impl : List (Bytes × Bytes)) : List (Bytes × Bytes) :=
 def renderObs (isAbort : Bool) (m : Model.SysCache.Obs) (impl : Obs) : List String :=
   let cs := m.contacts.flatMap fun c => [toHex' c.inm, toHex' c.ims, toHex' c.range]
   if isAbort then ["0", "aborted", "x", "0", toString m.contacts.length] ++ cs
+  else if m.hang then ["0", "noresponse", "x", "0", toString m.contacts.length] ++ cs
   else
     let hs := reconcile (pairsOf m.header) impl.headers
     [toString m.status, (if m.complete then "complete" else "cutshort"), toHex' m.body, toString hs.length] ++
@@ -367,6 +373,6 @@ def hSysC : Handler := fun impl => do
   let label := "+".intercalate ((mlabels ++ st.labels).eraseDups.take 6)
   return { model := " ".intercalate mtoks, oracle := oracle, cls := cls, label := if label = "" then "-" else label }
 
-def handlers : List (String × Handler) := [ ("sysc", hSysC), ("kf.C08-c", hSysC), ("kf.C09-g", hSysC), ("kf.C05-a", hSysC), ("kf.C09-e.sysc", hSysC), ("kf.C09-b.sysc", hSysC) ]
+def handlers : List (String × Handler) := [ ("sysc", hSysC), ("kf.C08-c", hSysC), ("kf.C09-g", hSysC), ("kf.C05-a", hSysC), ("kf.C09-e.sysc", hSysC), ("kf.C09-b.sysc", hSysC), ("kf.C11-a.sysc", hSysC) ]
 
 end H.SysC
